@@ -170,10 +170,27 @@ fn exec(c: &Ctx, op: &Value) -> Value {
                     None => json!({"found": false, "v": 0}),
                 }).collect::<Vec<_>>()})
             }
-            "knn" => match c.eng.knn_search(&c.fam.input(v), op["k"].as_u64().unwrap_or(2) as usize) {
-                Ok(r) => json!({"ok": true, "ids": r.iter().map(|x| x.doc_id).collect::<Vec<_>>()}),
-                Err(_) => json!({"ok": false}),
-            },
+            "knn" => {
+                let q = c.fam.input(v);
+                match c.eng.knn_search(&q, op["k"].as_u64().unwrap_or(2) as usize) {
+                    Ok(r) => {
+                        // reference distance (Euclidean family) to the vector the canonical store holds for the id right now
+                        let dok: Vec<bool> = r
+                            .iter()
+                            .map(|x| match c.eng.cold_tier().fetch_document(x.doc_id) {
+                                Some(dv) => {
+                                    let rd = q.iter().zip(dv.iter()).map(|(a, b)| ((*a - *b) as f64).powi(2)).sum::<f64>().sqrt();
+                                    ((x.distance as f64) - rd).abs() <= 2e-4 * (1.0 + rd)
+                                }
+                                None => false,
+                            })
+                            .collect();
+                        json!({"ok": true, "ids": r.iter().map(|x| x.doc_id).collect::<Vec<_>>(),
+                               "dists": r.iter().map(|x| x.distance).collect::<Vec<_>>(), "dok": dok})
+                    }
+                    Err(_) => json!({"ok": false}),
+                }
+            }
             "knn_batch" => json!({"ok": c.eng.knn_search_batch_with_ef(&[c.fam.input(1), c.fam.input(2)], 2, None).is_ok()}),
             "flush" => json!({"ok": c.eng.flush_hot_tier(true).is_ok()}),
             "flush_threshold" => json!({"ok": c.eng.flush_hot_tier(false).is_ok()}),
